@@ -26,7 +26,7 @@ RULE = ('case = (n records, position k of the faulty record, fault kind, format,
         'k on). The extraction tool run on the same file must print "Error detected in record k". Distinct by construction.')
 ASSUMPTIONS = ['vmon/ref/codec.py, vmon/ref/blocking.py build the files and the expected dicts', 'tool run in-process with out_encoding utf8']
 KINDS = ('truncated_record', 'oversized_length', 'undecodable_mti', 'unknown_bitmap_bit', 'bad_field_length', 'bad_typed_value',
-         'bad_pds_content', 'bad_icc_content', 'trailing_bytes', 'bad_decimal_value')
+         'bad_pds_content', 'bad_icc_content', 'trailing_bytes', 'bad_decimal_value', 'short_message')
 FRAMING = ('truncated_record', 'oversized_length')
 # how the caller walks the reader: the statement is about iteration, however it is spelled
 CONSUME = ('for', 'for', 'next_only', 'list', 'next_then_for', 'next2_then_list', 'islice_then_for', 'iter_twice')
@@ -80,6 +80,11 @@ def faulty_wire(kind, wire, enc):
     if kind == 'bad_typed_value':
         off = hdr + 2 + 16 + 6          # DE4 starts after DE2 (LL+16) and DE3 (6)
         return wire[:off] + 'ABCDEFGHIJKL'.encode(enc) + wire[off + 12:]
+    if kind == 'short_message':
+        # a record that ends inside its own header: MTI alone, or MTI and a few bitmap bytes that flag nothing
+        variants = (wire[:4], wire[:4] + b'\x80\x00', wire[:4] + b'\x00' * 8, wire[:4] + b'\x80' + b'\x00' * 14, wire[:2],
+                    wire[:4] + b'\x00', wire[:4] + b'\x80' + b'\x00' * 7)
+        return variants[len(wire) % len(variants)]
     if kind == 'bad_decimal_value':
         off = hdr + 2 + 16 + 6 + 12     # DE9 (decimal under the caller's configuration) follows DE4
         return wire[:off] + 'ABCD.EFG'.encode(enc) + wire[off + 8:]
